@@ -333,16 +333,121 @@ fn run_exhaustive(ctx: &WorkerCtx) -> WorkerReport {
     rep
 }
 
+// ------------------------------------------------------------------ deep nesting (child process: a stack overflow aborts)
+
+#[derive(Clone, Debug, Serialize, Deserialize)]
+pub struct DeepCase {
+    /// nesting depth
+    pub depth: u32,
+    /// 0 = lists, 1 = dictionaries (key `a`), 2 = alternating
+    pub kind: u8,
+    /// closed with the matching number of `e`s (well-formed) or left open (malformed)
+    pub closed: bool,
+}
+
+fn deep_strategy() -> BoxedStrategy<DeepCase> {
+    (prop::sample::select(vec![100u32, 500, 1000, 2000, 5000, 10_000, 20_000, 50_000, 200_000, 1_000_000]), 0u8..3, any::<bool>())
+        .prop_map(|(depth, kind, closed)| DeepCase { depth, kind, closed })
+        .boxed()
+}
+
+pub fn deep_doc(c: &DeepCase) -> Vec<u8> {
+    let mut v = Vec::with_capacity(c.depth as usize * 5);
+    for k in 0..c.depth {
+        let dict = c.kind == 1 || (c.kind == 2 && k % 2 == 1);
+        if dict {
+            v.extend_from_slice(b"d1:a");
+        } else {
+            v.push(b'l');
+        }
+    }
+    if c.closed {
+        // innermost value: an empty list closes at once, a dictionary needs a value for its key
+        let innermost_dict = c.kind == 1 || (c.kind == 2 && c.depth % 2 == 0 && c.depth > 0);
+        if innermost_dict {
+            v.extend_from_slice(b"le");
+        }
+        v.extend(std::iter::repeat(b'e').take(c.depth as usize));
+    }
+    v
+}
+
+/// Entry point of the child process (`vcheck --probe-decode <depth> <kind> <closed>`): decode, print the verdict, leave.
+pub fn probe_decode_main(depth: u32, kind: u8, closed: bool) -> i32 {
+    // a thread with a stack of exactly 8 MiB (the usual main-thread size), whatever `ulimit -s` says here
+    let h = std::thread::Builder::new().stack_size(8 << 20).spawn(move || {
+        let doc = deep_doc(&DeepCase { depth, kind, closed });
+        let r = BDecoder::from_array(&doc);
+        // do not run the (equally recursive) destructor of a deep value: the question is the decoder
+        let ok = r.is_ok();
+        std::mem::forget(r);
+        ok
+    });
+    match h.map(|h| h.join()) {
+        Ok(Ok(ok)) => {
+            println!("{}", if ok { "accepted" } else { "rejected" });
+            0
+        }
+        _ => 3,
+    }
+}
+
+/// Nesting as deep as the input is long: the decoder must come back (with a value or an error) instead of taking the
+/// process down. Run in a child process because a stack overflow cannot be caught.
+pub fn check_deep(c: &DeepCase) -> Outcome {
+    let mut o = Outcome::new();
+    o.nontrivial = true;
+    o.class_if(c.depth >= 10_000, "depth>=10000");
+    o.class_if(c.closed, "well-formed");
+    let exe = match std::env::current_exe() {
+        Ok(e) => e,
+        Err(_) => return o,
+    };
+    let out = std::process::Command::new(exe)
+        .arg("--probe-decode")
+        .arg(c.depth.to_string())
+        .arg(c.kind.to_string())
+        .arg(if c.closed { "1" } else { "0" })
+        .stdin(std::process::Stdio::null())
+        .stderr(std::process::Stdio::null())
+        .output();
+    let out = match out {
+        Ok(x) => x,
+        Err(_) => return o,
+    };
+    use std::os::unix::process::ExitStatusExt;
+    if let Some(sig) = out.status.signal() {
+        // the harness is built with optimisation level 2; an unoptimised rdest overflows about five times earlier
+        let s = if c.depth > 5_000 { "process-killed-by-stack-overflow-on-nesting-deeper-than-5000" } else { "process-killed-by-stack-overflow-on-nesting-up-to-5000" };
+        o.fail(s, format!("decoding {} nested {} ({}, {} bytes) killed the process with signal {}", c.depth, ["lists", "dictionaries", "lists and dictionaries"][c.kind as usize % 3], if c.closed { "well-formed" } else { "left open" }, deep_doc(c).len(), sig));
+        return o;
+    }
+    let verdict = String::from_utf8_lossy(&out.stdout).trim().to_string();
+    o.class_if(verdict == "accepted", "accepted");
+    if c.closed && verdict != "accepted" {
+        o.fail("rejects-well-formed", format!("{} levels of well-formed nesting (kind {}) rejected", c.depth, c.kind));
+    }
+    // (left open: accepted is the known finding accepts-unterminated-container-at-eof; not this sub's subject)
+    o
+}
+
 pub fn def() -> PropDef {
     PropDef {
         id: "C16",
-        rule: "sub exhaustive: every string over the 10-symbol delimiter-rich alphabet up to the length bound (all distinct, all counted non-trivial by construction); sub mutations: 0-2 generated documents (duplicate keys and unsorted dictionaries allowed) with 0-3 byte-level mutations (truncate/delete/insert/replace/duplicate-span/digit tweak), non-trivial = contains a container byte or ':'. Oracle: independent recursive-descent recogniser; rdest must accept exactly when it accepts, with matching values, without panicking.",
+        rule: "sub deep: nestings of 100..1,000,000 lists / dictionaries / both, closed (well-formed) or left open, decoded in a child process on an 8 MiB stack: the process must not be killed and a well-formed nesting must be accepted (a kill above 5000 levels is the second known finding). Sub exhaustive: every string over the 10-symbol delimiter-rich alphabet up to the length bound (all distinct, all counted non-trivial by construction); sub mutations: 0-2 generated documents (duplicate keys and unsorted dictionaries allowed) with 0-3 byte-level mutations (truncate/delete/insert/replace/duplicate-span/digit tweak), non-trivial = contains a container byte or ':'. Oracle: independent recursive-descent recogniser; rdest must accept exactly when it accepts, with matching values, without panicking.",
         assumptions: &[
             "integers outside i64 and string lengths outside usize are outside the stated domain: skipped and counted under excluded_known",
             "leading zeros in string lengths are legal (C05 treats them as legal encodings)",
             "reference recogniser in harness/src/refmodel/bencode.rs is trusted",
         ],
         subs: vec![
+            Sub {
+                name: "deep",
+                cases: |t| t.pick(64, 640),
+                run: |ctx| run_proptest_cfg(ctx, "deep", deep_strategy(), check_deep, 0),
+                replay: |v| replay_case::<DeepCase>(v, check_deep),
+                min_class: &[("depth>=10000", 0.2)],
+            },
             Sub {
                 name: "exhaustive",
                 cases: |_| 1,
